@@ -29,6 +29,7 @@
 #include <hdf5.h>
 #include <hdf5/FileHDF5.hpp>
 #include <unistd.h>
+#include <fcntl.h>
 #include <signal.h>
 #include <sys/types.h>
 #include <sys/wait.h>
